@@ -24,6 +24,8 @@ import (
 	"time"
 
 	"google.golang.org/protobuf/proto"
+	"google.golang.org/protobuf/reflect/protodesc"
+	"google.golang.org/protobuf/types/descriptorpb"
 	"google.golang.org/protobuf/reflect/protoreflect"
 
 	"github.com/bufbuild/protocompile"
@@ -45,6 +47,8 @@ type runSpec struct {
 	Reporter string              `json:"reporter"` // "default" (nil reporter) | "accept"
 	Shared   bool                `json:"shared"`   // pass a Symbols table
 	Trace    bool                `json:"trace"`
+	Ovr      bool                `json:"ovr"`     // the resolver overrides google/protobuf/descriptor.proto (model file "d")
+	Collide  bool                `json:"collide"` // all files share one package and every requested file defines message Dup
 }
 
 type runResult struct {
@@ -71,7 +75,23 @@ type tracer struct {
 	n   int
 }
 
-func id(s string) string { return strings.TrimSuffix(s, ".proto") }
+const dpPath = "google/protobuf/descriptor.proto"
+
+func id(s string) string {
+	if s == dpPath {
+		return "d"
+	}
+	return strings.TrimSuffix(s, ".proto")
+}
+
+func pathOf(f string) string {
+	if f == "d" && ovrMode {
+		return dpPath
+	}
+	return f + ".proto"
+}
+
+var ovrMode bool
 
 func classify(err error) string {
 	if err == nil {
@@ -94,6 +114,8 @@ func classify(err error) string {
 		return "resolve"
 	case strings.Contains(msg, "verif-read-fault"):
 		return "read"
+	case strings.Contains(msg, "already defined"):
+		return "dup"
 	}
 	return "other:" + msg
 }
@@ -167,12 +189,18 @@ func publicClosure(imports map[string][]string, f string, seen map[string]bool, 
 func render(spec *runSpec, f string) string {
 	var sb strings.Builder
 	sb.WriteString("syntax = \"proto3\";\n")
-	fmt.Fprintf(&sb, "package pkg_%s;\n", f)
+	pkg := func(x string) string {
+		if spec.Collide {
+			return "shared"
+		}
+		return "pkg_" + x
+	}
+	fmt.Fprintf(&sb, "package %s;\n", pkg(f))
 	for _, d := range spec.Imports[f] {
 		if spec.Public {
-			fmt.Fprintf(&sb, "import public \"%s.proto\";\n", d)
+			fmt.Fprintf(&sb, "import public \"%s\";\n", pathOf(d))
 		} else {
-			fmt.Fprintf(&sb, "import \"%s.proto\";\n", d)
+			fmt.Fprintf(&sb, "import \"%s\";\n", pathOf(d))
 		}
 	}
 	fmt.Fprintf(&sb, "message M%s {\n  int32 x = 1;\n", f)
@@ -191,11 +219,18 @@ func render(spec *runSpec, f string) string {
 		}
 	}
 	for _, d := range used {
-		fmt.Fprintf(&sb, "  pkg_%s.M%s f%d = %d;\n", d, d, n, n)
+		fmt.Fprintf(&sb, "  %s.M%s f%d = %d;\n", pkg(d), d, n, n)
 		n++
 	}
 	sb.WriteString("}\n")
 	fmt.Fprintf(&sb, "enum E%s { E%s_ZERO = 0; }\n", f, f)
+	if spec.Collide {
+		for _, r := range spec.Req {
+			if r == f {
+				sb.WriteString("message Dup { int32 y = 1; }\n")
+			}
+		}
+	}
 	return sb.String()
 }
 
@@ -231,10 +266,27 @@ func runOne(spec *runSpec) runResult {
 	}
 	sort.Strings(files)
 	texts := map[string]string{}
+	ovrMode = spec.Ovr
 	for _, f := range files {
+		if f == "d" && spec.Ovr {
+			continue
+		}
 		texts[f+".proto"] = render(spec, f)
 	}
+	dpProto := protodesc.ToFileDescriptorProto(descriptorpb.File_google_protobuf_descriptor_proto)
 	resolver := protocompile.ResolverFunc(func(path string) (protocompile.SearchResult, error) {
+		if path == dpPath {
+			if !spec.Ovr {
+				return protocompile.SearchResult{}, errors.New("verif-resolve-fault: no such file")
+			}
+			switch spec.Plan["d"] {
+			case "err":
+				return protocompile.SearchResult{}, errors.New("verif-resolve-fault")
+			case "panic":
+				panic("verif-panic:" + path)
+			}
+			return protocompile.SearchResult{Proto: dpProto}, nil
+		}
 		text, ok := texts[path]
 		if !ok {
 			return protocompile.SearchResult{}, errors.New("verif-resolve-fault: no such file")
@@ -283,7 +335,7 @@ func runOne(spec *runSpec) runResult {
 	tr.on = spec.Trace
 	tr.n = 0
 	tr.mu.Unlock()
-	tr.emit("Config", "id", spec.ID, "imports", cfgImports(spec), "req", spec.Req, "plan", cfgPlan(spec), "par", spec.Par)
+	tr.emit("Config", "id", spec.ID, "imports", cfgImports(spec), "req", spec.Req, "plan", cfgPlan(spec), "par", spec.Par, "ovr", spec.Ovr)
 
 	var mu sync.Mutex
 	var rep reporter.Reporter
@@ -297,7 +349,7 @@ func runOne(spec *runSpec) runResult {
 	}
 	names := make([]string, len(spec.Req))
 	for i, r := range spec.Req {
-		names[i] = r + ".proto"
+		names[i] = pathOf(r)
 	}
 
 	base := runtime.NumGoroutine()
